@@ -219,6 +219,9 @@ func (l *Gpos1_2) encode() []byte {
 	}
 	coverageOffset := total
 	total += l.Cov.EncodeLen()
+	if coverageOffset > 0xFFFF || valueCount > 0xFFFF {
+		panic("coverage offset overflow")
+	}
 
 	buf := make([]byte, 0, total)
 	buf = append(buf,
@@ -398,6 +401,9 @@ func (l Gpos2_1) encode() []byte {
 	pairSetCount := len(adjust)
 	total := 10 + 2*pairSetCount
 	coverageOffset := total
+	if coverageOffset > 0xFFFF {
+		panic("coverage offset overflow")
+	}
 	total += cov.EncodeLen()
 	var valueFormat1, valueFormat2 uint16
 	for _, adj := range adjust {
@@ -408,6 +414,9 @@ func (l Gpos2_1) encode() []byte {
 	}
 	pairSetOffsets := make([]uint16, pairSetCount)
 	for i, adj := range adjust {
+		if total > 0xFFFF {
+			panic("pair set offset overflow")
+		}
 		pairSetOffsets[i] = uint16(total)
 		total += 2 + 2*len(adj)
 		for _, v := range adj {
@@ -432,6 +441,9 @@ func (l Gpos2_1) encode() []byte {
 
 	for _, adj := range adjust {
 		pairValueCount := len(adj)
+		if pairValueCount > 0xFFFF {
+			panic("too many pairs in pair set")
+		}
 		buf = append(buf, byte(pairValueCount>>8), byte(pairValueCount))
 
 		keys := maps.Keys(adj)
@@ -609,6 +621,10 @@ func (l *Gpos2_2) encode() []byte {
 	total += l.Class1.AppendLen()
 	classDef2Offset := total
 	total += l.Class2.AppendLen()
+	if coverageOffset > 0xFFFF || classDef1Offset > 0xFFFF || classDef2Offset > 0xFFFF ||
+		class1Count > 0xFFFF || class2Count > 0xFFFF {
+		panic("class definition offset overflow")
+	}
 
 	res := make([]byte, 0, total)
 	res = append(res,
@@ -765,6 +781,9 @@ func (l *Gpos3_1) encode() []byte {
 	}
 	coverageOffset := total
 	total += l.Cov.EncodeLen()
+	if coverageOffset > 0xFFFF {
+		panic("coverage offset overflow")
+	}
 
 	res := make([]byte, 0, total)
 
